@@ -36,7 +36,7 @@ SPEC = os.path.join(VERIF, "spec", "avro_spec.rs")
 BASELINE_FILE = os.path.join(VERIF, "contracts", "BASELINE_OBLIGATIONS.json")
 KNOWN_FILE = os.path.join(VERIF, "known_findings.json")
 CRATE_DIR = "serde_avro_fast"
-RSS_LIMIT_KB = int(os.environ.get("VERIF_RSS_LIMIT_GB", "14")) * 1024 * 1024
+RSS_LIMIT_KB = int(os.environ.get("VERIF_RSS_LIMIT_GB", "12")) * 1024 * 1024  # x 5 jobs < 62 GB, no swap here
 
 
 def log(*a):
@@ -613,7 +613,7 @@ def run_property(pid, tier, repo=REPO, keep=False, quiet_evidence=False, record_
                 inject(scratch, used_units)
                 full = {h["unit"].full_harness(h): h for h in harnesses}
                 jout = os.path.join(logdir, "kani.json")
-                jobs = int(os.environ.get("VERIF_JOBS", "8" if tier == "quick" else "16"))
+                jobs = int(os.environ.get("VERIF_JOBS", "5"))
                 ht = int(os.environ.get("VERIF_HARNESS_TIMEOUT", "900" if tier == "quick" else "5400"))
                 cmd = kani_cmd(target, list(full), jobs, jout, ht, extra=cfg.get("kani_args", ()))
                 checker_cmds.append(" ".join(cmd[:12]) + " --harness <%d harnesses> -j %d" % (len(full), jobs))
